@@ -33,6 +33,48 @@ check("C11", "exploration",
       "DESIGN.md section 3 C11")
 
 
+check("C01", "exploration",
+      "Trace oracle over real executions: for thousands of generated declarations (whole declaration language) and inputs from a "
+      "lazy-buffer generator at several start offsets, the consumed byte spans observed through field wrappers decide what pack() "
+      "must reproduce, fill or reject (overlap). Generic and generated variants. Held on the executions produced; sampling, not proof.",
+      "Trusts that enter/exit cursor offsets of get_fields()/prototype wrappers in the all-generic variant are the consumed spans; "
+      "the reference model must agree on them (else inconclusive). Statement exclusions and the offset rule are applied by the generator.",
+      "runtime monitoring: field enter/exit recorder + trace oracle on unpack->pack executions, reference-model cross-check",
+      "DESIGN.md section 3 C01")
+
+check("C04", "exploration",
+      "Every truncation point of every generated valid input (plus targeted corruptions and random strings) is executed on the real "
+      "library; a cursor monitor (no value-bearing field span beyond len(raw)) and a strict reference model (no over-acceptance, no "
+      "fabricated value, PacketError only, silent -> None) observe each execution. Odd widths 3,5,6,7,9,16 and 24/40/48-bit groups included.",
+      "Trusts the strict reference model as the meaning of 'as many bytes as the declaration requires'; model-Undefined inputs are skipped and counted.",
+      "runtime monitoring: truncation sweep + cursor monitor + strict reference-model oracle",
+      "DESIGN.md section 3 C04")
+
+check("C06", "exploration",
+      "1098 real classes (23 sizing modes x include_delimiter x search_buffer_length x 3 code-generation option sets, Data between "
+      "two sentinels) run on ~40k (quick) / ~1M (thorough) adversarial inputs; a ten-line first-occurrence / exact-length model decides "
+      "value, cursor (through the sentinel and the end offset), error/no-error and the packed bytes.",
+      "Trusts the small model in c06.py (Python re semantics for regex markers). pack() of regex markers not kept in the value is not judged (F2).",
+      "runtime monitoring: reference-model oracle over adversarial inputs on sentinel-framed declarations",
+      "DESIGN.md section 3 C06")
+
+check("C09", "exploration",
+      "Seeded random expression trees (depth<=4 quick / <=6 thorough; every binary operator in 4 operand shapes, unary, n-ary forms) are "
+      "compiled by the real deferred-expression machinery and evaluated on parsed packets; value, exact type and exception class are "
+      "compared with strict eager evaluation; the same trees are placed as Data size, repeat count and when condition in fresh classes.",
+      "Trusts Python's own eager evaluation of the same tree as the meaning; trees with huge pow/shift are skipped before the library is called (counted).",
+      "runtime monitoring: differential oracle (compiled deferred expression vs eager evaluation) over random trees",
+      "DESIGN.md section 3 C09")
+
+check("C12", "exploration",
+      "Every failing execution of a truncation/corruption sweep (unpack) and of invalid-leaf / colliding value trees (pack) is judged: "
+      "exception type, phase flag, innermost entry (field or run containing it, class, offset where it begins), one entry per enclosing "
+      "field, str() total, silent -> None, non-bytes -> ValueError. The failing field is observed (deepest open wrapper) and cross-checked with the model.",
+      "Trusts the Recorder's deepest-open-wrapper as the failing field and the model's Fail path; outer offsets are not judged. Known findings F11, F12 are classified by mechanism.",
+      "runtime monitoring: failure-injection workload + error-shape oracle against observed failing field",
+      "DESIGN.md section 3 C12")
+
+
 def build():
     import glob
     props = []
